@@ -103,6 +103,14 @@ Theorem C08_membership : forall (env : spec_env) (a : expr) (x : bytes) (va : va
   (r = true <-> exists y, In y xs /\ spec_equal va y = Some true).
 Proof. exact C08_membership_proof. Qed.
 
+(* the same against an array literal whose elements are evaluated left to right *)
+Theorem C08_membership_literal : forall (env : spec_env) (a : expr) (es : list expr) (va : value) (vs : list value) (r : bool),
+  spec_eval env a = Ok va -> spec_list (spec_eval env) es = Ok vs -> spec_member va vs = Some r ->
+  spec_eval env (EBin BIn a (EArr es)) = Ok (VBool r) /\
+  spec_eval env (EBin BNotIn a (EArr es)) = Ok (VBool (negb r)) /\
+  (r = true <-> exists y, In y vs /\ spec_equal va y = Some true).
+Proof. exact C08_membership_literal_proof. Qed.
+
 (* the conditional operator evaluates exactly one branch *)
 Theorem C08_conditional_one_branch : forall (env : spec_env) (c : expr) (v : value),
   spec_eval env c = Ok v ->
@@ -190,6 +198,7 @@ Print Assumptions C08_left_assoc.
 Print Assumptions C08_precedence.
 Print Assumptions C08_short_circuit.
 Print Assumptions C08_membership.
+Print Assumptions C08_membership_literal.
 Print Assumptions C08_conditional_one_branch.
 Print Assumptions C08_integer_arithmetic.
 Print Assumptions C08_integer_range.
